@@ -278,6 +278,26 @@ theorem dict_perm_invariant (factory : List Char → Except Err Int) (t : List (
   have := perm_invariant (m.map fun kv => (kv.2, ((zf kv.1 : Int) : ℝ))) (m'.map fun kv => (kv.2, ((zf kv.1 : Int) : ℝ))) warn (hp.map _)
   simpa [List.map_map, Function.comp_def] using this
 
+/-- **the dict form with the default `substances`** (charges parsed from the keys): invariant under permutation of the entries, and its
+    value is ½ Σ b·z(key)² — success characterisation of the dict form in one statement -/
+theorem dict_perm_invariant_default (zf : List Char → Int) (m m' : List (List Char × ℝ)) (warn : Bool) (hp : m.Perm m') (hne : m ≠ [])
+    (hk : ∀ kv ∈ m, kv.1 ≠ [] ∧ (∀ c ∈ kv.1, isPyWs c = false) ∧ formulaCharge kv.1 = .ok (zf kv.1)) :
+    ionicStrengthDict m warn = ionicStrengthDict m' warn ∧
+    ∃ w, ionicStrengthDict m warn = .ok ((m.map fun kv => kv.2 * ((zf kv.1 : Int) : ℝ) ^ 2).sum / 2, w) := by
+  have hne' : m' ≠ [] := fun e => hne (List.perm_nil.mp (e ▸ hp))
+  have h1 := ionic_strength_dict_spec zf m warn hne hk
+  have h2 := ionic_strength_dict_spec zf m' warn hne' (fun kv hkv => hk kv (hp.mem_iff.mpr hkv))
+  constructor
+  · rw [h1, h2]
+    have := perm_invariant (m.map fun kv => (kv.2, ((zf kv.1 : Int) : ℝ))) (m'.map fun kv => (kv.2, ((zf kv.1 : Int) : ℝ))) warn (hp.map _)
+    simpa [List.map_map, Function.comp_def] using this
+  · rw [h1]
+    obtain ⟨w, hw⟩ := ionic_strength_spec (m.map Prod.snd) (m.map fun kv => ((zf kv.1 : Int) : ℝ)) warn (by simp) (by simpa using hne)
+    refine ⟨w, ?_⟩
+    rw [hw]
+    congr 3
+    rw [List.zipWith_map_left, List.zipWith_map_right, List.zipWith_self]
+
 /-- **neutral on paper, rounded in floating point**: non-negative molalities, charges 0 or of magnitude ≥ 1 (integers), and a net charge
     that is only rounding noise, `|Σ b z| ≤ 9·10⁻¹⁵ · Σ b|z|` (k products and k−1 additions in double precision stay below
     (k+1)·1.2·10⁻¹⁶·Σ b|z|, i.e. up to ~70 ions), draw NO warning.  This is what the tolerance `atol = tot·10⁻¹⁴` is for; it stops at
@@ -286,30 +306,57 @@ theorem no_warning_under_rounding (p : ℝ × ℝ) (r : List (ℝ × ℝ)) (warn
     (hb : ∀ q ∈ p :: r, 0 ≤ q.1) (hz : ∀ q ∈ p :: r, q.2 = 0 ∨ 1 ≤ |q.2|)
     (hnet : |sumNet (p :: r)| ≤ 9 / 10 ^ 15 * ((p :: r).map fun q => q.1 * |q.2|).sum) :
     ionicStrength ((p :: r).map Prod.fst) ((p :: r).map Prod.snd) warn = .ok (sumTot (p :: r) / 2, false) := by
-  have hle : ∀ l : List (ℝ × ℝ), (∀ q ∈ l, 0 ≤ q.1) → (∀ q ∈ l, q.2 = 0 ∨ 1 ≤ |q.2|) →
-      (l.map fun q => q.1 * |q.2|).sum ≤ sumTot l := by
-    intro l
-    induction l with
-    | nil => intro _ _; simp [sumTot]
-    | cons q l ih =>
-      intro h1 h2
-      have ih' := ih (fun x hx => h1 x (by simp [hx])) (fun x hx => h2 x (by simp [hx]))
-      have hq : q.1 * |q.2| ≤ q.1 * q.2 ^ 2 := by
-        apply mul_le_mul_of_nonneg_left _ (h1 q (by simp))
-        rcases h2 q (by simp) with h0 | h1'
-        · rw [h0]; simp
-        · calc |q.2| ≤ |q.2| * |q.2| := le_mul_of_one_le_right (abs_nonneg _) h1'
-            _ = q.2 ^ 2 := by rw [← abs_mul_abs_self, sq]; simp [abs_mul_abs_self]
-      simp only [sumTot, List.map_cons, List.sum_cons] at ih' ⊢
-      linarith
   change isPairs (p :: r) warn = _
   rw [isPairs_cons]
-  have h1 := hle (p :: r) hb hz
+  have h1 := sum_abs_le_sumTot (p :: r) hb hz
   have hn : notNeutral (sumNet (p :: r)) (sumTot (p :: r)) = false := by
     rw [Bool.eq_false_iff, ne_eq, notNeutral_iff, not_lt]
     have h0 := abs_nonneg (sumNet (p :: r))
     nlinarith
   rw [hn, Bool.and_false]
+
+/-- **double-precision rounding cannot trigger the warning on a composition that is neutral on paper.**
+    `l` holds the decimal molalities and the (integer) charges with Σ b z = 0 exactly; the code sees `float(b)`, forms the products
+    `b*z` and adds them from the left, every one of these operations with a relative error ≤ u ≤ 2⁻⁵³ (`RndTerm`, `FlSum`: the
+    standard model of IEEE arithmetic).  For up to 8 ions the computed net charge is then at most 2·10⁻¹⁵·Σ b z², and the neutrality
+    test stays silent for any computed total within 1 % of the exact one.  (Links `no_warning_when_neutral`, which needs net = 0
+    exactly in ℝ, to what happens on floats; the three operations inside `allclose` itself are taken exact — the margin is 5×.) -/
+theorem no_warning_for_rounded_neutral (u : ℝ) (hu0 : 0 ≤ u) (hu : u ≤ 1 / 2 ^ 53)
+    (l : List (ℝ × ℝ)) (hb : ∀ q ∈ l, 0 ≤ q.1) (hz : ∀ q ∈ l, q.2 = 0 ∨ 1 ≤ |q.2|) (hk : l.length ≤ 8)
+    (hneutral : sumNet l = 0)
+    (ps : List ℝ) (hps : List.Forall₂ (RndTerm u) l ps) (net : ℝ) (hnet : FlSum u ps net)
+    (tot : ℝ) (htot : 99 / 100 * sumTot l ≤ tot) :
+    notNeutral net tot = false := by
+  have hnetb := rounded_net_le u hu0 hu l hb hz hk hneutral ps hps net hnet
+  have hT : 0 ≤ sumTot l := sumTot_nonneg hb
+  rw [Bool.eq_false_iff, ne_eq, notNeutral_iff, not_lt]
+  have := abs_nonneg net
+  nlinarith
+
+/-- the same with the total evaluated in floating point as well (`b * z**2` rounded, added from the left): no hypothesis on the
+    computed total is left — neutral on paper, ≤ 8 ions, integer charges, double precision ⇒ no warning -/
+theorem no_warning_for_rounded_evaluation (u : ℝ) (hu0 : 0 ≤ u) (hu : u ≤ 1 / 2 ^ 53)
+    (l : List (ℝ × ℝ)) (hb : ∀ q ∈ l, 0 ≤ q.1) (hz : ∀ q ∈ l, q.2 = 0 ∨ 1 ≤ |q.2|) (hk : l.length ≤ 8)
+    (hneutral : sumNet l = 0)
+    (ps : List ℝ) (hps : List.Forall₂ (RndTerm u) l ps) (net : ℝ) (hnet : FlSum u ps net)
+    (pt : List ℝ) (hpt : List.Forall₂ (RndTerm u) (l.map fun q => (q.1, q.2 ^ 2)) pt) (tot : ℝ) (htot : FlSum u pt tot) :
+    notNeutral net tot = false := by
+  refine no_warning_for_rounded_neutral u hu0 hu l hb hz hk hneutral ps hps net hnet tot ?_
+  have h := abs_le.mp (rounded_tot_bounds u hu0 hu l hb hk pt hpt tot htot)
+  have hT : 0 ≤ sumTot l := sumTot_nonneg hb
+  nlinarith [h.1]
+
+/-- … and with the neutrality test itself evaluated in floating point (`NotNeutralFl`: the doubles nearest to `1e-8`, `1e-14`, the two
+    products, their sum and `abs(net − tot·0)` each rounded): whatever the rounding errors (≤ 2⁻⁵³ each), the outcome of the test on a
+    paper-neutral composition of ≤ 8 ions with integer charges is "neutral" — NO floating-point step of `ionic_strength` is left exact. -/
+theorem no_warning_for_rounded_test (u : ℝ) (hu0 : 0 ≤ u) (hu : u ≤ 1 / 2 ^ 53)
+    (l : List (ℝ × ℝ)) (hb : ∀ q ∈ l, 0 ≤ q.1) (hz : ∀ q ∈ l, q.2 = 0 ∨ 1 ≤ |q.2|) (hk : l.length ≤ 8)
+    (hneutral : sumNet l = 0)
+    (ps : List ℝ) (hps : List.Forall₂ (RndTerm u) l ps) (net : ℝ) (hnet : FlSum u ps net)
+    (pt : List ℝ) (hpt : List.Forall₂ (RndTerm u) (l.map fun q => (q.1, q.2 ^ 2)) pt) (tot : ℝ) (htot : FlSum u pt tot)
+    (res : Bool) (hres : NotNeutralFl u net tot res) : res = false :=
+  notNeutralFl_false u hu0 hu net tot (sumTot l) (sumTot_nonneg hb)
+    (rounded_net_le u hu0 hu l hb hz hk hneutral ps hps net hnet) (rounded_tot_bounds u hu0 hu l hb hk pt hpt tot htot) res hres
 
 /-! ## vectorised molalities, the other paths of `allclose`, the base class -/
 
@@ -456,6 +503,18 @@ theorem A_paths_agree {eps T rho b0 : ℝ} (he : 0 < eps) (hT : 0 < T) (hr : 0 <
   rw [aNum_form he hT hr hb, aConst_form he hT hr hb constAvogadro_pos constVacuumPermittivity_pos constBoltzmann_pos,
     mul_div_mul_right _ _ (formA_pos he hT hr hb).ne']
   exact constA_ratio constPi_bounds.1 constPi_bounds.2
+
+/-- **the extracted physical constants are the CODATA-2006 values of `quantities`** (F, N_A, ε₀, k_B, R) and the double π: each
+    generated rational is the double nearest to the printed decimal, i.e. within 2 parts in 10¹⁶ of it -/
+theorem constants_are_codata_2006 :
+    |(constFaraday : ℝ) - 96485.3399| ≤ 96485.3399 * (2 / 10 ^ 16) ∧
+    |(constAvogadro : ℝ) - 6.02214179e23| ≤ 6.02214179e23 * (2 / 10 ^ 16) ∧
+    |(constVacuumPermittivity : ℝ) - 8.854187817e-12| ≤ 8.854187817e-12 * (2 / 10 ^ 16) ∧
+    |(constBoltzmann : ℝ) - 1.3806504e-23| ≤ 1.3806504e-23 * (2 / 10 ^ 16) ∧
+    |(constMolarGas : ℝ) - 8.314472| ≤ 8.314472 * (2 / 10 ^ 16) ∧
+    |(constPi : ℝ) - 3.141592653589793| ≤ 3.141592653589793 * (2 / 10 ^ 16) := by
+  simp only [constFaraday, constAvogadro, constVacuumPermittivity, constBoltzmann, constMolarGas, constPi, NumReal.frac_eq]
+  refine ⟨?_, ?_, ?_, ?_, ?_, ?_⟩ <;> rw [abs_le] <;> constructor <;> norm_num
 
 /-- **both paths of `B` have the same form** `C · ρ^{1/2} · b₀^{1/2} · (ε_r T)^{-1/2}`: `C = combinedB` resp. `F·(2/(ε₀ R))^{1/2}` -/
 theorem B_paths_same_form {eps T rho b0 F eps0 R : ℝ} (he : 0 < eps) (hT : 0 < T) (hr : 0 < rho) (hb : 0 < b0)
@@ -745,6 +804,40 @@ example : allcloseB (.arr [(1 : ℝ)]) (.arr [1, 5, 9]) (1 / 10 ^ 8) (.scalar 0)
     have h := hiff.mp rfl 1 (by norm_num)
     simp only [Arg.get, List.getD_eq_getElem?_getD] at h
     norm_num at h
+
+/-- `ionic_strength([0.1, 0.3], [3, -1])`: neutral on paper; the hypotheses of `no_warning_for_rounded_neutral` hold (here with exact
+    products and an exact sum, u = 0) -/
+example : notNeutral (0 : ℝ) (12 / 10) = false :=
+  no_warning_for_rounded_neutral 0 le_rfl (by norm_num) [(1 / 10, 3), (3 / 10, -1)]
+    (by intro q hq; simp only [List.mem_cons, List.not_mem_nil, or_false] at hq; rcases hq with rfl | rfl <;> norm_num)
+    (by intro q hq; simp only [List.mem_cons, List.not_mem_nil, or_false] at hq; rcases hq with rfl | rfl <;> norm_num)
+    (by simp) (by simp [sumNet]; norm_num)
+    [3 / 10, -(3 / 10)]
+    (List.Forall₂.cons ⟨0, 0, by simp, by simp, by norm_num⟩ (List.Forall₂.cons ⟨0, 0, by simp, by simp, by norm_num⟩ List.Forall₂.nil))
+    0 (by
+      have h := FlSum.snoc (u := 0) [3 / 10] (-(3 / 10)) (3 / 10) 0 (FlSum.single _) ⟨0, by simp, by norm_num⟩
+      simpa using h)
+    (12 / 10) (by simp [sumTot]; norm_num)
+
+/-- the floating-point test has outcomes (here the exact evaluation, u = 0, of net = 0, tot = 1.2): `NotNeutralFl` is satisfiable -/
+example : NotNeutralFl 0 0 (12 / 10) false :=
+  ⟨1 / 10 ^ 8, 1 / 10 ^ 14, 0, 12 / 10 * (1 / 10 ^ 14), 12 / 10 * (1 / 10 ^ 14), 0,
+    ⟨0, by simp, by ring⟩, ⟨0, by simp, by ring⟩, ⟨0, by simp, by simp⟩, ⟨0, by simp, by ring⟩, ⟨0, by simp, by ring⟩,
+    ⟨0, by simp, by simp⟩, by
+      have : (0 : ℝ) ≤ 12 / 10 * (1 / 10 ^ 14) := by positivity
+      simp [this]⟩
+
+/-- `{'Mg+2': 6, 'PO4-3': 4}` and `{'PO4-3': 4, 'Mg+2': 6}` give the same result: an instance of `dict_perm_invariant_default` -/
+example : ionicStrengthDict [("Mg+2".toList, (6 : ℝ)), ("PO4-3".toList, 4)] true
+    = ionicStrengthDict [("PO4-3".toList, (4 : ℝ)), ("Mg+2".toList, 6)] true :=
+  (dict_perm_invariant_default (fun k => if k = "Mg+2".toList then 2 else -3)
+    [("Mg+2".toList, (6 : ℝ)), ("PO4-3".toList, 4)] [("PO4-3".toList, (4 : ℝ)), ("Mg+2".toList, 6)] true
+    (List.Perm.swap _ _ []) (by simp) (by
+      intro kv hkv
+      simp only [List.mem_cons, List.not_mem_nil, or_false] at hkv
+      rcases hkv with rfl | rfl
+      · exact ⟨by decide, by decide, by decide +kernel⟩
+      · exact ⟨by decide, by decide, by decide +kernel⟩)).1
 
 /-- water at 20 °C lies in the domain of `A_paths_agree` / `B_paths_agree` -/
 example : |aConst (80.1 : ℝ) 293.15 998.2071 1 constFaraday constAvogadro constVacuumPermittivity constBoltzmann constPi
